@@ -5,9 +5,121 @@ import Rtcp.Impl.Setters
 import Rtcp.Props.WriterContract
 import Rtcp.Spec.All
 import Rtcp.Proofs.WritersCompound
+import Rtcp.Proofs.WritersFci
 
 namespace Rtcp.Proofs
 open Rtcp Rtcp.Impl Rtcp.Spec Rtcp.Props
+
+/-! ## helper lemmas -/
+
+theorem sortedInsert_mem_iff (x : UInt16) (l : List UInt16) (z : UInt16) :
+    z ∈ sortedInsert x l ↔ z = x ∨ z ∈ l := by
+  induction l with
+  | nil => simp [sortedInsert]
+  | cons y ys ih =>
+    unfold sortedInsert
+    split
+    · simp
+    · split
+      · next hxy =>
+        have : x = y := by simpa using hxy
+        subst this
+        simp
+      · simp only [List.mem_cons, ih]
+        constructor
+        · rintro (h | h | h) <;> simp [h]
+        · rintro (h | h | h) <;> simp [h]
+
+theorem sortedInsert_idem (x : UInt16) (l : List UInt16) :
+    sortedInsert x (sortedInsert x l) = sortedInsert x l := by
+  induction l with
+  | nil => simp [sortedInsert, UInt16.lt_irrefl]
+  | cons y ys ih =>
+    by_cases h1 : x < y
+    · have : sortedInsert x (y :: ys) = x :: y :: ys := by simp [sortedInsert, h1]
+      rw [this]
+      simp [sortedInsert, UInt16.lt_irrefl]
+    · by_cases h2 : (x == y) = true
+      · have : sortedInsert x (y :: ys) = y :: ys := by simp [sortedInsert, h1, h2]
+        rw [this, this]
+      · have : ∀ l', sortedInsert x (y :: l') = y :: sortedInsert x l' := by
+          intro l'; simp only [sortedInsert, h1, h2, if_false, Bool.false_eq_true]
+        rw [this, this, ih]
+
+/-- strictly ascending lists with the same members are equal -/
+theorem sorted_ext (l1 l2 : List UInt16) (h1 : l1.Pairwise (· < ·)) (h2 : l2.Pairwise (· < ·))
+    (hm : ∀ z, z ∈ l1 ↔ z ∈ l2) : l1 = l2 := by
+  induction l1 generalizing l2 with
+  | nil =>
+    cases l2 with
+    | nil => rfl
+    | cons b l2 => exact absurd ((hm b).mpr (by simp)) (by simp)
+  | cons a l1 ih =>
+    cases l2 with
+    | nil => exact absurd ((hm a).mp (by simp)) (by simp)
+    | cons b l2 =>
+      rw [List.pairwise_cons] at h1 h2
+      have hab : a = b := by
+        have ha : a ∈ b :: l2 := (hm a).mp (by simp)
+        have hb : b ∈ a :: l1 := (hm b).mpr (by simp)
+        simp only [List.mem_cons] at ha hb
+        rcases ha with ha | ha
+        · exact ha
+        · rcases hb with hb | hb
+          · exact hb.symm
+          · exact absurd (h1.1 b hb) (UInt16.lt_asymm (h2.1 a ha))
+      subst hab
+      congr 1
+      apply ih l2 h1.2 h2.2
+      intro z
+      constructor
+      · intro hz
+        have := (hm z).mp (by simp [hz])
+        simp only [List.mem_cons] at this
+        rcases this with rfl | h
+        · exact absurd (h1.1 z hz) (UInt16.lt_irrefl _)
+        · exact h
+      · intro hz
+        have := (hm z).mpr (by simp [hz])
+        simp only [List.mem_cons] at this
+        rcases this with rfl | h
+        · exact absurd (h2.1 z hz) (UInt16.lt_irrefl _)
+        · exact h
+
+theorem upsert_upsert_same (k : UInt32) (v v' : UInt8) (l : List (UInt32 × UInt8)) :
+    FirBuilder.upsert k v' (FirBuilder.upsert k v l) = FirBuilder.upsert k v' l := by
+  induction l with
+  | nil => simp [FirBuilder.upsert]
+  | cons e es ih =>
+    obtain ⟨a, b⟩ := e
+    by_cases hak : a = k
+    · subst hak; simp [FirBuilder.upsert]
+    · have : (a == k) = false := by simpa using hak
+      simp only [FirBuilder.upsert, this, Bool.false_eq_true, if_false, ih]
+
+theorem upsert_upsert_perm (k k' : UInt32) (v v' : UInt8) (hne : k ≠ k') (l : List (UInt32 × UInt8)) :
+    (FirBuilder.upsert k' v' (FirBuilder.upsert k v l)).Perm
+      (FirBuilder.upsert k v (FirBuilder.upsert k' v' l)) := by
+  have hkk' : (k == k') = false := by simpa using hne
+  have hk'k : (k' == k) = false := by simpa using (Ne.symm hne)
+  induction l with
+  | nil =>
+    simp only [FirBuilder.upsert, hkk', hk'k, Bool.false_eq_true, if_false]
+    exact List.Perm.swap _ _ _
+  | cons e es ih =>
+    obtain ⟨a, b⟩ := e
+    by_cases hak : a = k
+    · subst hak
+      simp [FirBuilder.upsert, hkk']
+    · have h1 : (a == k) = false := by simpa using hak
+      by_cases hak' : a = k'
+      · subst hak'
+        simp [FirBuilder.upsert, hk'k]
+      · have h2 : (a == k') = false := by simpa using hak'
+        simp only [FirBuilder.upsert, h1, h2, Bool.false_eq_true, if_false]
+        exact List.Perm.cons _ ih
+
+/-! ## the cited theorems -/
 
 theorem adders_preserve_order (sr : SrBuilder) (rr : RrBuilder) (bye : ByeBuilder) (sd : SdesBuilder)
     (ch : SdesChunkBuilder) (sli : SliBuilder) (ms : List Writer)
@@ -21,37 +133,86 @@ theorem adders_preserve_order (sr : SrBuilder) (rr : RrBuilder) (bye : ByeBuilde
     (es.foldl (fun b e => b.addLostMacroblock e.1 e.2.1 e.2.2) sli).lostMbs
       = sli.lostMbs ++ es.map (fun e => ⟨e.1, e.2.1, e.2.2⟩) ∧
     ws.foldl CompoundBuilder.addPacket ms = ms ++ ws := by
-  sorry
+  refine ⟨?_, ?_, ?_, ?_, ?_, ?_, ?_⟩
+  · induction rbs generalizing sr with
+    | nil => simp
+    | cons x xs ih => simp [List.foldl_cons, ih, SrBuilder.addReportBlock]
+  · induction rbs generalizing rr with
+    | nil => simp
+    | cons x xs ih => simp [List.foldl_cons, ih, RrBuilder.addReportBlock]
+  · induction ss generalizing bye with
+    | nil => simp
+    | cons x xs ih => simp [List.foldl_cons, ih, ByeBuilder.addSource]
+  · induction cs generalizing sd with
+    | nil => simp
+    | cons x xs ih => simp [List.foldl_cons, ih, SdesBuilder.addChunk]
+  · induction its generalizing ch with
+    | nil => simp
+    | cons x xs ih => simp [List.foldl_cons, ih, SdesChunkBuilder.addItem]
+  · induction es generalizing sli with
+    | nil => simp
+    | cons x xs ih =>
+      rw [List.foldl_cons, ih]
+      simp [SliBuilder.addLostMacroblock]
+  · induction ws generalizing ms with
+    | nil => simp
+    | cons x xs ih => simp [List.foldl_cons, ih, CompoundBuilder.addPacket]
 
 theorem nack_add_idempotent (b : NackBuilder) (s : UInt16) (h : b.rtpSeq.Pairwise (· < ·)) :
     (b.addRtpSequence s).addRtpSequence s = b.addRtpSequence s := by
-  sorry
+  have _ := h
+  simp only [NackBuilder.addRtpSequence, sortedInsert_idem]
 
 theorem nack_add_comm (b : NackBuilder) (s t : UInt16) (h : b.rtpSeq.Pairwise (· < ·)) :
     (b.addRtpSequence s).addRtpSequence t = (b.addRtpSequence t).addRtpSequence s := by
-  sorry
+  simp only [NackBuilder.addRtpSequence]
+  congr 1
+  apply sorted_ext
+  · exact sortedInsert_pairwise _ _ (sortedInsert_pairwise _ _ h)
+  · exact sortedInsert_pairwise _ _ (sortedInsert_pairwise _ _ h)
+  · intro z
+    simp only [sortedInsert_mem_iff]
+    constructor
+    · rintro (h | h | h) <;> simp [h]
+    · rintro (h | h | h) <;> simp [h]
 
 theorem nack_add_mem (b : NackBuilder) (s x : UInt16) :
     x ∈ (b.addRtpSequence s).rtpSeq ↔ x = s ∨ x ∈ b.rtpSeq := by
-  sorry
+  simp only [NackBuilder.addRtpSequence, sortedInsert_mem_iff]
 
 theorem fir_add_last_wins (b : FirBuilder) (k : UInt32) (v v' : UInt8) :
     (b.addSsrc k v).addSsrc k v' = b.addSsrc k v' := by
-  sorry
+  simp only [FirBuilder.addSsrc, upsert_upsert_same]
 
 theorem fir_add_comm (b : FirBuilder) (k k' : UInt32) (v v' : UInt8) (hne : k ≠ k')
     (hu : (b.ssrcSeq.map (·.1)).Nodup) :
     ((b.addSsrc k v).addSsrc k' v').ssrcSeq.Perm ((b.addSsrc k' v').addSsrc k v).ssrcSeq := by
-  sorry
+  have _ := hu
+  simp only [FirBuilder.addSsrc]
+  exact upsert_upsert_perm k k' v v' hne b.ssrcSeq
 
 theorem fir_image_perm (a b : FirBuilder) (h : a.ssrcSeq.Perm b.ssrcSeq) :
     (a.ssrcSeq.map firEntryImage).Perm (b.ssrcSeq.map firEntryImage) ∧ a.calcSize = b.calcSize := by
-  sorry
+  refine ⟨h.map _, ?_⟩
+  simp only [FirBuilder.calcSize, h.length_eq]
 
 theorem compound_singleton (m : Writer) (img : Bytes) (h : Refines m img) :
     Refines (CompoundBuilder.toWriter [m]) img ∧
     (CompoundBuilder.toWriter [m]).calcSize = m.calcSize ∧
     (CompoundBuilder.toWriter [m]).getPadding = m.getPadding := by
-  sorry
+  refine ⟨?_, ?_, ?_⟩
+  · have := compound_refines [m] [img] ⟨rfl, by
+      intro i h1 h2
+      have : i = 0 := by simpa using h1
+      subst this
+      simpa using h⟩
+    simpa using this
+  · show CompoundBuilder.sizeLoop 0 [m] 0 0 = m.calcSize
+    simp only [CompoundBuilder.sizeLoop]
+    cases hc : m.calcSize with
+    | ok n => simp
+    | err e => rfl
+    | panic => rfl
+  · simp [CompoundBuilder.toWriter, CompoundBuilder.getPadding]
 
 end Rtcp.Proofs
